@@ -1444,7 +1444,7 @@ fn check_stream(acc: &mut Acc, fs: &[&(T, Vec<u8>)]) {
                     Err(e) => e.clone(),
                 };
                 acc.add(
-                    format!("{} valid-stream feeding {} first={} frames-differ", dec.name(), mode, shape(f1)),
+                    format!("{} valid-stream feeding {} frames-differ", dec.name(), mode),
                     format!(
                         "{}: stream `{}` fed {} (cuts at {:?}) yields {} instead of [{}]",
                         dec.name(),
